@@ -2565,7 +2565,12 @@ class Glommer:
         return
 
     def glom(self, target, spec, **kwargs):
-        return glom(target, spec, scope=self.scope, **kwargs)
+        scope = self.scope
+        if 'scope' in kwargs:
+            # the caller's names on top of this Glommer's own
+            scope = dict(scope)
+            scope.update(kwargs.pop('scope'))
+        return glom(target, spec, scope=scope, **kwargs)
 
 
 class Fill:
